@@ -63,13 +63,13 @@ CHECKS = {
     "C12": vsim("TestVerif_C12", ["snapshot-label", "info-config"],
         "cases = generated snapshot+membership schedules; TakeSnapshot with the snapshot goroutine parked at its first instruction while further entries incl. configuration entries commit, then released; restarts and installs. Oracle on EVERY meta file published on any disk (hook right after the rename): index/term equal the committed entry, size equals the data file, configuration == newest committed configuration entry with index <= snapshot index; status reports' Latest == newest configuration in log or snapshot label. non-trivial: a snapshot was stored whose configuration in force is not the bootstrap one; distinct by trace hash",
         400, 4000),
-    "C11": vsim("TestVerif_C11", ["nonvoter-authority"],
+    "C11": vsim("TestVerif_C11", ["nonvoter-authority", "durable-majority"],
         "cases = generated membership/transfer schedules; non-trivial: a non-voter/non-member had its election timer fire or was sent timeout-now, or a promotion was appended; distinct by trace hash",
         400, 4000),
     "C15": vsim("TestVerif_C15", ["no-crash", "serve", "shutdown", "tasks-complete", "log-read"],
         "cases = generated chaos schedules (client + admin tasks, snapshots, compaction, transfers, membership changes, partitions, crash/stop/restart, many 1 KiB segments) ending with heal, restart, 60 s of virtual time and shutdown of every node; non-trivial: >=3 of {snapshot, compaction, install, transfer, membership change, partition, restart}; distinct by trace hash",
         300, 3000),
-    "C16": vsim("TestVerif_C16", ["transfer", "leader-unique"],
+    "C16": vsim("TestVerif_C16", ["transfer", "leader-unique", "converge"],
         "cases = generated transfer schedules (target given/any/invalid, gated delivery of timeout-now, its reply and the vote traffic, concurrent updates and membership actions); non-trivial: a timeout-now request was written and the transfer task completed; distinct by trace hash",
         400, 4000),
     "C19": vsim("TestVerif_C19", ["info-order", "info-monotonic", "info-config"],
